@@ -17,6 +17,7 @@ let () =
   Ad_exclusive.init ();
   Ad_waitcond.init ();
   Ad_cleanerproto.init ();
+  Ad_castertrace.init ();
   let fn_cases = ref 0 and fn_bad = ref 0 in
   let file = Sys.argv.(1) in
   let ic = open_in file in
